@@ -190,11 +190,8 @@ theorem glob_touchGroup {st : State} (h : Glob st) (k : Key) : Glob (touchGroup 
 theorem glob_call {st : State} (h : Glob st) (pc : Pc) : Glob (callStep st pc).1 := by
   cases pc with
   | join s g as => exact h
-  | joinFiltered s g as =>
-    show Glob (joinEntry st s g as).1
-    by_cases hne : as.filter (alive st) = []
-    · rw [joinEntry_empty st s g as hne]; exact glob_touchGroup h _
-    · rw [joinEntry_nonempty st s g as hne]; exact glob_join h s g as
+  | joinFiltered s g as => exact h
+  | joinIn s g as todo => exact h
   | joinEntered s g as p =>
     exact glob_of_trans h (trans_of_same (same_joinCleanup st s g as))
       (by show NodupKeys (joinCleanup st s g as).map; unfold joinCleanup; dsimp only; exact nodupKeys_alter h.kMap _ _) rfl
@@ -291,16 +288,67 @@ theorem glob_exreg {st : State} (h : Glob st) (b : Nat) (ph : Phase) (r : ExReg)
       | cons _ _ => exact h
     | _ => exact h
 
+theorem glob_joinCommit {st : State} (h : Glob st) (k : Key) (joined : List Nat) : Glob (joinCommit st k joined) := by
+  by_cases hj : joined = []
+  · unfold joinCommit; rw [if_pos hj]; exact h
+  · constructor
+    · unfold joinCommit; rw [if_neg hj]; exact nodupKeys_set h.kMap _ _
+    · intro s' g'
+      obtain ⟨y, hy⟩ := List.exists_mem_of_ne_nil _ hj
+      have hi : idxOf (joinCommit st k joined) s' = if s' = k.1 then ins k.2 (idxOf st s') else idxOf st s' := by
+        unfold joinCommit; rw [if_neg hj]
+        unfold idxOf addToIndex
+        simp only [get_alter]
+        by_cases e : s' = k.1
+        · rw [if_pos e, if_pos e, e]; rfl
+        · rw [if_neg e, if_neg e]
+      rw [hi]
+      simp only [joinCommit_members]
+      by_cases e : s' = k.1
+      · rw [if_pos e]
+        simp only [mem_ins, h.idx]
+        constructor
+        · rintro (rfl | ⟨x, hx⟩)
+          · exact ⟨y, Or.inr ⟨by rw [e], hy⟩⟩
+          · exact ⟨x, Or.inl hx⟩
+        · rintro ⟨x, hx | ⟨hk, _⟩⟩
+          · exact Or.inr ⟨x, hx⟩
+          · left; rw [← hk]
+      · rw [if_neg e, h.idx]
+        constructor
+        · rintro ⟨x, hx⟩; exact ⟨x, Or.inl hx⟩
+        · rintro ⟨x, hx | ⟨hk, _⟩⟩
+          · exact ⟨x, hx⟩
+          · exact absurd (by rw [← hk]) e
+
 theorem glob_step {g : G} (h : Glob g.st) (t : Tid) : Glob (step g t).st := by
   cases t with
   | ex b r =>
-    by_cases hg : r = .mark ∧ b ∈ g.st.dead
-    · rw [step_ex_guard g b r hg]; exact h
-    · rw [step_ex g b r hg]; exact glob_exreg h b _ r
+    by_cases hs : exSkip g b r
+    · rw [step_ex_skip g b r hs]; exact h
+    · rw [step_ex g b r hs]; exact glob_exreg h b _ r
   | call i =>
     cases hp : g.thr[i]? with
     | none => rw [step_call_none g i hp]; exact h
-    | some pc => rw [step_call_some g i pc hp]; exact glob_call h pc
+    | some pc =>
+      by_cases hb : blocked g pc
+      · rw [step_call_blocked g i pc hp hb]; exact h
+      · by_cases c1 : ∃ s g' as, pc = .joinFiltered s g' as
+        · obtain ⟨s, g', as, rfl⟩ := c1
+          rw [step_call_lock g i s g' as hp hb]; exact glob_touchGroup h _
+        · by_cases c2 : ∃ s g' as todo, pc = .joinIn s g' as todo
+          · obtain ⟨s, g', as, todo, rfl⟩ := c2
+            cases todo with
+            | nil => rw [step_call_commit g i s g' as hp]; exact glob_joinCommit h _ _
+            | cons x todo =>
+              rw [step_call_one g i s g' as x todo hp]
+              show Glob (if joinOk g (s, g') x then joinOne g.st (s, g') x else g.st)
+              split
+              · exact glob_congr h rfl rfl
+              · exact h
+          · have h1 : ∀ s g' as, pc ≠ .joinFiltered s g' as := fun s g' as e => c1 ⟨s, g', as, e⟩
+            have h2 : ∀ s g' as todo, pc ≠ .joinIn s g' as todo := fun s g' as todo e => c2 ⟨s, g', as, todo, e⟩
+            rw [step_call_other g i pc hp hb h1 h2]; exact glob_call h pc
 
 theorem glob_run {g : G} (h : Glob g.st) (sched : List Tid) : Glob (run g sched).st := by
   unfold run
